@@ -26,6 +26,7 @@ class PerformanceConfig:
     """Configuration for performance linter rules."""
 
     enabled: bool = True
+    report_each_concat: bool = False  # string-concat-loop: one violation per += instead of per loop
 
     @classmethod
     def from_dict(cls, config: dict[str, Any], language: str | None = None) -> "PerformanceConfig":
@@ -38,6 +39,9 @@ class PerformanceConfig:
         Returns:
             PerformanceConfig instance with values from dictionary
         """
+        sub_rule = config.get("string-concat-loop", config.get("string_concat_loop"))
+        sub_rule = sub_rule if isinstance(sub_rule, dict) else {}
         return cls(
             enabled=config.get("enabled", True),
+            report_each_concat=sub_rule.get("report_each_concat", False) is True,
         )
